@@ -1142,6 +1142,12 @@ DoGetData(const Message & msg)
 {
    TCHECKPOINT;
 
+   // Any update notices that are still pending for our client describe an earlier state than the one we are
+   // about to report, so they have to go out first;  otherwise (eg) the node-removed notice generated by a
+   // filter change would arrive after (and undo) the data returned for another subscription in the same command.
+   PushSubscriptionMessage(_nextSubscriptionMessage);
+   PushSubscriptionMessage(_nextIndexSubscriptionMessage);
+
    NodePathMatcher matcher;
    (void) matcher.PutPathsFromMessage(PR_NAME_KEYS, PR_NAME_FILTERS, msg, DEFAULT_PATH_PREFIX);
 
